@@ -249,6 +249,29 @@ def canonicalise_paths(j):
     return json.loads(text), sub
 
 
+def restore_files_by_type(j, table):
+    """a function the rules do not know (new, or renamed beyond recognition) that is a method of a type the rules know and lives
+    in a file the rules do not know is presented in the file where that type's methods were pinned"""
+    known_files = {v.get('file') for v in table.values() if v.get('file')}
+    type_file = {}
+    for fid, v in table.items():
+        if v.get('impl') and v.get('file'):
+            type_file.setdefault(v['impl'], {}).setdefault(v['file'], 0)
+            type_file[v['impl']][v['file']] += 1
+    for f in j['fns']:
+        root = f.get('root', f['id'])
+        if root in table or f.get('file') in known_files or 'file_actual' in f:
+            continue
+        h = (f.get('impl_self') or {}).get('h')
+        if h is None:
+            r = next((g for g in j['fns'] if g['id'] == root), None)
+            h = ((r or {}).get('impl_self') or {}).get('h')
+        files = type_file.get(h)
+        if files:
+            f['file_actual'] = f.get('file')
+            f['file'] = max(files.items(), key=lambda kv: kv[1])[0]
+
+
 def restore_files(j, table):
     """a function the rules know that now lives in another file (an impl block or a module moved) keeps, for the rules, the
     file it was pinned in; reports show the real one (`file_actual`)"""
@@ -259,6 +282,7 @@ def restore_files(j, table):
             f['file_actual'] = f['file']
             f['file'] = pinned['file']
             n += 1
+    restore_files_by_type(j, table)
     return n
 
 
@@ -279,8 +303,12 @@ def rebind_functions(j):
         scored = []
         for n in fresh:
             ns = cur[n]
-            if [_short(x) for x in ns['args']] != [_short(x) for x in ms['args']] or _short(ns['ret']) != _short(ms['ret']) or ns['async'] != ms['async']:
+            if [_short(x) for x in ns['args']] != [_short(x) for x in ms['args']] or ns['async'] != ms['async']:
                 continue
+            same_ret = _short(ns['ret']) == _short(ms['ret'])
+            same_impl = ms['impl'] == ns['impl'] or _short(ms['impl'] or '') == _short(ns['impl'] or '')
+            if not same_ret and not (same_impl and ms['impl']):
+                continue    # a changed return type (tuple -> small struct) is tolerated for a method of the same type only
             if ms['trait_item'] != ns['trait_item']:
                 continue
             s = jaccard(ms['callees'], ns['callees'])
@@ -288,6 +316,11 @@ def rebind_functions(j):
                 s += 0.1
             if n.rsplit('::', 1)[-1] == m.rsplit('::', 1)[-1]:
                 s += 0.1     # same name, another module
+            else:
+                ta, tb = set(n.rsplit('::', 1)[-1].split('_')), set(m.rsplit('::', 1)[-1].split('_'))
+                s += 0.2 * len(ta & tb) / max(1, len(ta | tb))     # read_current_record ~ read_next_record
+            if same_ret:
+                s += 0.05
             scored.append((s, n))
         scored.sort(reverse=True)
         # the same name under another path (an impl block or a function moved to another module) decides by itself
